@@ -353,17 +353,18 @@ class EuclideanMetricSystem(TractableFlowSystem):
     @metric.setter
     def metric(self, value: matrices.PositiveDefiniteMatrix) -> None:
         self._metric = value
-        # Values cached in chain states (kinetic energy and its derivatives, Gram
-        # matrices of constrained systems...) depend on the metric: renew the token
-        # identifying this system in cache keys so values computed with a previous
-        # metric are not used
-        self.__dict__.pop("_state_cache_token", None)
+        # Values cached in chain states by methods which depend on the metric (kinetic
+        # energy and its derivatives, Gram matrices of constrained systems...) include
+        # this version number in their cache keys so that values computed with a
+        # previous metric are not used, while values which do not depend on the metric
+        # (for example of the model functions) remain valid
+        self._metric_version = self.__dict__.get("_metric_version", 0) + 1
 
-    @cache_in_state("mom")
+    @cache_in_state("mom", depends_on_metric=True)
     def h2(self, state: ChainState) -> ScalarLike:
         return 0.5 * state.mom @ self.dh2_dmom(state)
 
-    @cache_in_state("mom")
+    @cache_in_state("mom", depends_on_metric=True)
     def dh2_dmom(self, state: ChainState) -> ArrayLike:
         return self.metric.inv @ state.mom
 
@@ -467,7 +468,7 @@ class GaussianEuclideanMetricSystem(EuclideanMetricSystem):
             0.5 * state.pos @ state.pos + 0.5 * state.mom @ self.metric.inv @ state.mom
         )
 
-    @cache_in_state("mom")
+    @cache_in_state("mom", depends_on_metric=True)
     def dh2_dmom(self, state: ChainState) -> ArrayLike:
         return self.metric.inv @ state.mom
 
@@ -814,7 +815,7 @@ class ConstrainedEuclideanMetricSystem(
     ) -> tuple[matrices.Matrix, matrices.Matrix]:
         return (dt * self.metric.inv, matrices.IdentityMatrix(self.metric.shape[0]))
 
-    @cache_in_state("pos")
+    @cache_in_state("pos", depends_on_metric=True)
     def gram(self, state: ChainState) -> matrices.PositiveDefiniteMatrix:
         """Gram matrix at current position.
 
@@ -1036,7 +1037,7 @@ class DenseConstrainedEuclideanMetricSystem(ConstrainedEuclideanMetricSystem):
             jacob_constr_1 @ (inner_product_matrix @ jacob_constr_2.T),
         )
 
-    @cache_in_state("pos")
+    @cache_in_state("pos", depends_on_metric=True)
     def grad_log_det_sqrt_gram(self, state: ChainState) -> ArrayLike:
         # Evaluate MHP of constraint function before Jacobian as Jacobian value
         # will potentially be computed in 'forward' pass and cached
